@@ -1,4 +1,5 @@
 import CookModel.Side.AisleUtf8
+import CookModel.Side.AisleSpec
 /- C11 — `from_utf8 (as_bytes s) = Ok s` for the hand-written encoder / decoder (`autf_`). -/
 namespace Cook.Aisle
 
@@ -217,5 +218,26 @@ theorem autf_decode_sound (bs : List UInt8) (s : List Char) (h : utf8Decode bs =
 
 theorem autf_decode_iff (bs : List UInt8) (s : List Char) : utf8Decode bs = some s ↔ bs = utf8Encode s :=
   ⟨autf_decode_sound bs s, fun h => h ▸ autf_decode_encode s⟩
+
+/-! ### byte offsets: the model's spans (`utf8Len`) are offsets into `utf8Encode` of the input -/
+
+theorem autf_encode_append (a b : List Char) : utf8Encode (a ++ b) = utf8Encode a ++ utf8Encode b := by
+  simp [utf8Encode]
+
+theorem autf_length_encode (s : List Char) : (utf8Encode s).length = utf8Len s := by
+  induction s with
+  | nil => rfl
+  | cons c s ih =>
+    have h1 : utf8Encode (c :: s) = utf8Encode [c] ++ utf8Encode s := autf_encode_append [c] s
+    have h2 : utf8Encode [c] = String.utf8EncodeChar c := by
+      rw [autf_encChar_eq]; simp [utf8Encode]
+    rw [h1, List.length_append, ih, h2, String.length_utf8EncodeChar]; rfl
+
+/-- the bytes between the two ends of the span of an occurrence of `text` are the encoding of `text` -/
+theorem autf_spanOf_bytes (input : List Char) (sp : Span) (text : List Char) (h : SpanOf input sp text) :
+    ((utf8Encode input).drop sp.start).take (sp.stop - sp.start) = utf8Encode text := by
+  obtain ⟨pre, post, rfl, h1, h2⟩ := h
+  rw [autf_encode_append, autf_encode_append, h1, h2, ← autf_length_encode pre, ← autf_length_encode text,
+    List.append_assoc, List.drop_left, Nat.add_sub_cancel_left, List.take_left]
 
 end Cook.Aisle
